@@ -36,6 +36,7 @@ class Q:
 
     def __init__(self, rnd=None):
         self.rnd = rnd
+        self.used = set()          # (kind, unit) pairs actually used for input quantities (coverage evidence for C07)
         import_repo()
         import gearpy.units as U
         self.U = U
@@ -44,6 +45,7 @@ class Q:
         cls = getattr(self.U, kind)
         if unit is None:
             unit = spectab.si_unit(kind) if self.rnd is None else self.rnd.choice(spectab.units_of(kind))
+        self.used.add((kind, unit))
         v = spectab.to_unit(Fraction(si), kind, unit)
         f = float(v)
         if v.denominator == 1 and abs(v) < 2**53 and self.rnd is not None and self.rnd.random() < 0.3:
@@ -214,7 +216,9 @@ def read_hist(pt):
 
 
 # ------------------------------------------------------------------ harness-owned call-outs
-def make_traced(pt, events):
+def make_traced(pt, holder):
+    """holder: {'events': {...}} - the per-run event lists are swapped in by execute(), so control / sensor objects can be
+    reused across runs (repeating a schedule reuses the same objects)"""
     import_repo()
     from gearpy.motor_control import PWMControl
     from gearpy.motor_control.rules.rules_base import RuleBase
@@ -229,9 +233,9 @@ def make_traced(pt, events):
             try:
                 r = self.inner.apply()
             except Exception as e:          # noqa
-                events['rule'].append({'at': len(pt.time), 'idx': self.idx, 'ret': N, 'raised': type(e).__name__})
+                holder['events']['rule'].append({'at': len(pt.time), 'idx': self.idx, 'ret': N, 'raised': type(e).__name__})
                 raise
-            events['rule'].append({'at': len(pt.time), 'idx': self.idx, 'ret': N if r is None else num_s(float(r) if not isinstance(r, int) else r), 'raised': ''})
+            holder['events']['rule'].append({'at': len(pt.time), 'idx': self.idx, 'ret': N if r is None else num_s(float(r) if not isinstance(r, int) else r), 'raised': ''})
             return r
 
     class CustomRule(RuleBase):
@@ -254,7 +258,7 @@ def make_traced(pt, events):
 
         def get_value(self, unit=None):
             v = self.inner.get_value(unit) if unit is not None else self.inner.get_value()
-            events['sensor'].append({'at': len(pt.time), 'ret': si_of(v, self.kind) if unit is None else num_s(v)})
+            holder['events']['sensor'].append({'at': len(pt.time), 'ret': si_of(v, self.kind) if unit is None else num_s(v)})
             return v
 
     class TracedPWMControl(PWMControl):
@@ -262,18 +266,18 @@ def make_traced(pt, events):
             try:
                 super().apply_rules()
             except Exception as e:          # noqa
-                events['control'].append({'at': len(pt.time), 'pwm': N, 'raised': type(e).__name__})
+                holder['events']['control'].append({'at': len(pt.time), 'pwm': N, 'raised': type(e).__name__})
                 raise
-            events['control'].append({'at': len(pt.time), 'pwm': num_s(pt.elements[0].pwm), 'raised': ''})
+            holder['events']['control'].append({'at': len(pt.time), 'pwm': num_s(pt.elements[0].pwm), 'raised': ''})
 
     return TracedRule, CustomRule, TracedSensor, TracedPWMControl
 
 
-def make_control(b, rules, events):
+def make_control(b, rules, holder):
     from gearpy.motor_control.rules import ConstantPWM, ReachAngularPosition, StartLimitCurrent, StartProportionalToAngularPosition
     from gearpy.sensors import AbsoluteRotaryEncoder, Tachometer, Timer
     pt, q, objs = b['pt'], b['q'], b['objs']
-    TracedRule, CustomRule, TracedSensor, TracedPWMControl = make_traced(pt, events)
+    TracedRule, CustomRule, TracedSensor, TracedPWMControl = make_traced(pt, holder)
     ctl = TracedPWMControl(pt)
     for idx, r in enumerate(rules, 1):
         t = r['type']
@@ -296,11 +300,11 @@ def make_control(b, rules, events):
     return ctl
 
 
-def make_stop(b, s, events):
+def make_stop(b, s, holder):
     from gearpy.sensors import AbsoluteRotaryEncoder, Tachometer, Amperometer
     from gearpy.utils import StopCondition
     pt, q, objs = b['pt'], b['q'], b['objs']
-    _, _, TracedSensor, _ = make_traced(pt, events)
+    _, _, TracedSensor, _ = make_traced(pt, holder)
     kind = {'enc': 'AngularPosition', 'tach': 'AngularSpeed', 'amp': 'Current'}[s['sensor']]
     inner = {'enc': AbsoluteRotaryEncoder, 'tach': Tachometer, 'amp': Amperometer}[s['sensor']](objs[s['el']])
     op = {'gt': StopCondition.greater_than, 'ge': StopCondition.greater_than_or_equal_to, 'eq': StopCondition.equal_to,
@@ -349,6 +353,8 @@ def execute(tid, inst, rnd=None):
     solvers = {}
     recs = []
     epochs = []
+    holder = {'events': {'rule': [], 'control': [], 'sensor': []}}
+    ctl_cache, stop_cache = {}, {}
 
     def close_epoch():
         time, hist, kinds_ok = read_hist(pt)
@@ -357,8 +363,11 @@ def execute(tid, inst, rnd=None):
         k = op['op']
         rec = {'op': k}
         if k == 'set_initial':
-            objs[-1].angular_position = q('AngularPosition', op['pos'])
-            objs[-1].angular_speed = q('AngularSpeed', op['spd'])
+            if 'pos_unit' not in op:            # chosen once per schedule entry: re-applying the initial conditions re-applies THESE
+                op['pos_unit'] = q('AngularPosition', 1).unit
+                op['spd_unit'] = q('AngularSpeed', 1).unit
+            objs[-1].angular_position = q('AngularPosition', op['pos'], op['pos_unit'])
+            objs[-1].angular_speed = q('AngularSpeed', op['spd'], op['spd_unit'])
             rec.update(pos=si_of(objs[-1].angular_position), spd=si_of(objs[-1].angular_speed))
         elif k == 'new_solver':
             solvers[op['sid']] = Solver(pt)
@@ -369,11 +378,20 @@ def execute(tid, inst, rnd=None):
             rec['v'] = num_s(objs[0].pwm)
         elif k == 'run':
             events = {'rule': [], 'control': [], 'sensor': []}
+            holder['events'] = events
             b['calls'].clear()
             dt = q('TimeInterval', op['dt'], op.get('dt_unit'))
             T = q('TimeInterval', op['T'], op.get('T_unit'))
-            ctl = make_control(b, inst['ctrls'][op['ctrl']], events) if op.get('ctrl') is not None else None
-            stop, thr = (make_stop(b, inst['stops'][op['stop']], events) if op.get('stop') is not None else (None, N))
+            ctl = None
+            if op.get('ctrl') is not None:
+                if op['ctrl'] not in ctl_cache:
+                    ctl_cache[op['ctrl']] = make_control(b, inst['ctrls'][op['ctrl']], holder)
+                ctl = ctl_cache[op['ctrl']]
+            stop, thr = None, N
+            if op.get('stop') is not None:
+                if op['stop'] not in stop_cache:
+                    stop_cache[op['stop']] = make_stop(b, inst['stops'][op['stop']], holder)
+                stop, thr = stop_cache[op['stop']]
             rec.update(sid=op['sid'], dt=si_of(dt, 'Time'), T=si_of(T, 'Time'), dt_unit=dt.unit, T_unit=T.unit,
                        ctrl=0 if op.get('ctrl') is None else op['ctrl'] + 1, stop=0 if op.get('stop') is None else op['stop'] + 1, thr=thr,
                        pwm_before=num_s(objs[0].pwm), tq_before=si_of(objs[0].torque, 'Torque') if objs[0].torque is not None else N,
@@ -403,7 +421,7 @@ def execute(tid, inst, rnd=None):
             'load': {k: rstr(float(Fraction(v))) for k, v in inst['load'].items()},
             'ctrls': [[_rule_desc(r, b) for r in rules] for rules in inst.get('ctrls', [])],
             'stops': [dict(s, thr=str(s['thr'])) for s in inst.get('stops', [])],
-            'ops': recs, 'epochs': epochs}
+            'ops': recs, 'epochs': epochs, 'units_used': sorted(f'{k}:{u}' for k, u in q.used)}
 
 
 def _rule_desc(r, b):
